@@ -123,3 +123,95 @@ def run_rule(rep, fx, rid, cfg='default', floor=1):
                     why = 'without security plugins the selected reader ids are not each handed the submessage'
     rep.check(ok, rid, '%shandle_submessage/dispatch' % pre, 'UNKNOWN => every selected reader id; named => that reader id (no-plugins arm)',
               'handle_submessage does not hand a writer submessage to the readers it is for (%s)' % why, h.where(unk[0][0]) if unk else h.where())
+
+
+def run_kinds(rep, fx, rid, cfg='default', prefix=None, declare=None):
+    """Each kind of submessage reaches the handler of the entity it was dispatched to."""
+    from rdv.core import primary_edges
+    pre = prefix if prefix is not None else ('' if cfg == 'default' else cfg + ':')
+    if declare if declare is not None else cfg == 'default':
+        rep.rule(rid, 'every submessage kind reaches its handler: in handle_writer_submessage the Data / DataFrag / Heartbeat / Gap arms call decode_and_handle_data / '
+                      'decode_and_handle_datafrag / Reader::handle_heartbeat_msg / Reader::handle_gap_msg with the content of that arm on the Reader found for the target id, on every '
+                      'path; without the security feature decode_and_handle_data is handle_data_msg(reader, data, flags, state) and decode_and_handle_datafrag is '
+                      'handle_datafrag_msg(reader, datafrag, flags, state) unless the payload is longer than fragments_in_submessage * fragment_size; a Reader-kind submessage '
+                      '(ACKNACK, NACKFRAG) is handed to handle_reader_submessage on every path without security plugins')
+    h = fx.find(MR + 'handle_writer_submessage')
+    rep.analysed(h)
+    og = Origins(h, summaries=False)
+    P = Pos(h)
+    edges = primary_edges(h, list(switch_edges(h, fx, og)))
+    want = {'Data': 'MessageReceiver::decode_and_handle_data', 'DataFrag': 'MessageReceiver::decode_and_handle_datafrag', 'Heartbeat': 'Reader::handle_heartbeat_msg',
+            'Gap': 'Reader::handle_gap_msg'}
+    n = 0
+    for kind, callee in want.items():
+        arm = [(s_, t_) for s_, t_, cond, lab in edges if lab == kind and cond[0] == 'discr' and term_has(cond, lambda x: x[0] == 'param')]
+        sites = []
+        for bb, t in h.calls():
+            if call_matches(t, callee):
+                args = [og.of_operand(a, bb, 'term') for a in t['args']]
+                has_content = any(term_has(a, lambda x: x[0] == 'variant' and x[1] == kind) for a in args)
+                has_reader = any(term_has(a, lambda x: x[0] == 'call' and x[1].endswith('reader_mut')) for a in args)
+                if has_content and has_reader:
+                    sites.append((bb, 'term'))
+        ok = len(arm) >= 1 and bool(sites)
+        for s_, t_ in arm:
+            for r in h.return_blocks():
+                if P.can_reach((t_, 0), (r, 'term'), avoid_pos=sites):
+                    ok = False
+        n += 1
+        rep.check(ok, rid, '%shandle_writer_submessage/%s' % (pre, kind), '%s arm => %s(content of the arm, the reader found) on every path' % (kind, callee.rsplit('::', 1)[-1]),
+                  'handle_writer_submessage does not hand a %s submessage to %s of the target Reader on every path: that kind of submessage is silently ignored' % (kind, callee.rsplit('::', 1)[-1]), h.where())
+    rep.floor(rid, n, 4, 'writer submessage kinds')
+    if cfg == 'default':
+        for fn, sink, exempt in (('decode_and_handle_data', 'Reader::handle_data_msg', False), ('decode_and_handle_datafrag', 'Reader::handle_datafrag_msg', True)):
+            b = fx.find(MR + fn)
+            rep.analysed(b)
+            og = Origins(b, summaries=False)
+            P = Pos(b)
+            names = {v: k for k, v in b.local_names().items() if 1 <= k <= b.argc}
+            sites = []
+            for bb, t in b.calls():
+                if call_matches(t, sink):
+                    args = [_deref(og.of_operand(a, bb, 'term')) for a in t['args']]
+                    if args[0] == ('param', names.get('reader')) and args[1] == ('param', names.get('data' if not exempt else 'datafrag')) and \
+                            args[2] == ('param', names.get('data_flags' if not exempt else 'datafrag_flags')) and args[3] == ('param', names.get('mr_state')):
+                        sites.append((bb, 'term'))
+            edges_b = list(switch_edges(b, fx, og))
+            too_long = [(s_, t_) for s_, t_, cond, lab in edges_b if exempt and cond[0] == 'bin' and ((cond[1] == 'Gt' and lab is True) or (cond[1] == 'Le' and lab is False)) and
+                        term_has(cond[2], lambda x: (x[0] == 'call' and x[1].endswith('::len')) or x[0] == 'len') and term_has(cond[3], lambda x: x[0] == 'field' and x[1] == 'fragments_in_submessage') and
+                        term_has(cond[3], lambda x: x[0] == 'field' and x[1] == 'fragment_size')]
+            ok = len(sites) == 1
+            for r in b.return_blocks():
+                if not P.every_path_passes(None, (r, 'term'), via_pos=sites, via_edges=too_long, from_entry=True):
+                    ok = False
+            rep.check(ok, rid, '%s/sink' % fn, '%s(reader, content, flags, state) on every path%s' % (sink.rsplit('::', 1)[-1], ' (oversized payload excepted)' if exempt else ''),
+                      '%s does not hand the submessage to %s on every path: no %s is ever delivered to a Reader in a build without the security feature' %
+                      (fn, sink.rsplit('::', 1)[-1], 'DATA' if not exempt else 'DATAFRAG'), b.where())
+    # Reader-kind submessages
+    hs = fx.find(MR + 'handle_submessage')
+    og = Origins(hs, summaries=False)
+    P = Pos(hs)
+    edges = primary_edges(hs, list(switch_edges(hs, fx, og)))
+    arm = [(s_, t_) for s_, t_, cond, lab in edges if lab == 'Reader' and cond[0] == 'discr' and term_has(cond, lambda x: x[0] == 'field' and x[1] == 'body')]
+    sites = [(bb, 'term') for bb, t in hs.calls() if call_matches(t, 'MessageReceiver::handle_reader_submessage') and
+             term_has(og.of_operand(t['args'][1], bb, 'term'), lambda x: x[0] == 'variant' and x[1] == 'Reader')]
+    ok = len(arm) == 1 and bool(sites)
+    if ok:
+        starts = [arm[0][1]]
+        if cfg != 'default':
+            starts = [t_ for s_, t_, cond, lab in edges if lab == 'None' and cond[0] == 'discr' and term_has(cond, lambda x: x[0] == 'field' and x[1] == 'security_plugins') and
+                      P.can_reach((arm[0][1], 0), (s_, 'term')) and not any(P.can_reach((t2, 0), (s_, 'term')) for s2, t2, c2, l2 in edges if s2 == arm[0][0] and t2 != arm[0][1])]
+            ok = bool(starts)
+        for st in starts:
+            for r in hs.return_blocks():
+                if P.can_reach((st, 0), (r, 'term'), avoid_pos=sites):
+                    ok = False
+    rep.check(ok, rid, '%shandle_submessage/reader-kind' % pre, 'Reader-kind submessage => handle_reader_submessage (no plugins)',
+              'handle_submessage does not hand a Reader-kind submessage (ACKNACK, NACKFRAG) to handle_reader_submessage on every path without security plugins: no ACKNACK ever '
+              'reaches a Writer', hs.where(arm[0][0]) if arm else hs.where())
+
+
+def _deref(t):
+    while isinstance(t, tuple) and t and t[0] in ('ref', 'deref', 'copy') and len(t) > 1 and isinstance(t[1], tuple):
+        t = t[1]
+    return t
